@@ -5,6 +5,7 @@ import (
 	"encoding/hex"
 	"fmt"
 	"math/big"
+	"strings"
 
 	"github.com/dominant-strategies/go-quai/common"
 	"github.com/dominant-strategies/go-quai/crypto"
@@ -267,12 +268,129 @@ func corpus(tier string) []*Case {
 			ca(1, "1000", etxI(extQuai(1), "100", "21000", "1", "1"), selfd(eoa(2))), ea(2, "0"))
 		add(c)
 	}
+	cs = append(cs, swallowCorpus()...)
 	// access-list enforcement on
 	{
 		c := tx("access-list enforcement on, every account listed", contract(1), "3",
 			ca(1, "50", call(contract(2), "30"), selfd(eoa(2))), ca(2, "5", call(eoa(2), "7"), stop()), ea(2, "0"))
 		c.ACL = true
 		add(c)
+	}
+	return cs
+}
+
+// ---------- value sent out of the zone inside a frame that fails while the caller carries on ----------
+
+var callKinds = []string{"call", "callcode", "delegatecall", "staticcall"}
+var failOps = []string{"revert", "invalid", "burn"}
+
+func convI(t, v, gl string) Instr { return Instr{Op: "convert", T: t, V: v, GL: gl} }
+
+// sendSet: one send of every kind that can append to EVM.ETXCache below the top level: the ETX opcode
+// (with and without fee) and the CONVERT opcode.  (A nested CALL to an address outside the zone's Quai
+// ledger never reaches EVM.CreateETX: gasCall fails on InternalAndQuaiAddress and the calling frame
+// dies; EVM.CreateETX is reachable from the top-level message only.)
+func sendSet() []Instr {
+	return []Instr{etxI(extQuai(1), "500", "21000", "1", "1"), convI(qiHere(1), minConv, "30000"),
+		etxI(extQuai(2), "77", "40000", "0", "0")}
+}
+
+// invoke: contract t entered through the given call kind with a bounded amount of gas
+func invoke(kind, t, gas string) Instr {
+	in := Instr{Op: kind, T: t, G: gas}
+	if kind == "call" || kind == "callcode" {
+		in.V = "3"
+	}
+	return in
+}
+
+func swallowCorpus() []*Case {
+	var cs []*Case
+	endow := new(big.Int).Mul(params.MinQuaiConversionAmount, big.NewInt(3)).String()
+	mk := func(note string, i int, accts ...Acct) *Case {
+		c := baseCase(note)
+		c.To, c.Gas = contract(1), 6000000
+		c.with(ea(1, rich)).with(accts...)
+		// spread over the configurations: fork regime, access-list enforcement
+		if i%2 == 1 {
+			c.PTN = ptnPre
+		}
+		c.ACL = i%3 == 0
+		return c
+	}
+	last := etxI(extQuai(3), "7", "21000", "0", "0") // emitted by the surviving outer frame: must be the only ETX
+	n := 0
+	// A. every call kind x every way of failing: the callee sends, then fails; the caller ignores it
+	for _, k := range callKinds {
+		drv := []Instr{}
+		accts := []Acct{}
+		for j, f := range failOps {
+			drv = append(drv, invoke(k, contract(2+j), "450000"))
+			accts = append(accts, ca(2+j, rich, append(sendSet(), Instr{Op: f})...))
+		}
+		// ... and once more with the callee starved of gas in the middle of its sends
+		drv = append(drv, invoke(k, contract(5), "40000"))
+		accts = append(accts, ca(5, rich, append(sendSet(), stop())...))
+		drv = append(drv, last, stop())
+		cs = append(cs, mk("sends inside a "+strings.ToUpper(k)+" frame that reverts / hits INVALID / runs out of gas; the caller carries on", n,
+			append([]Acct{ca(1, rich, drv...)}, accts...)...))
+		n++
+	}
+	// ... and every creation kind (the factory frame survives, the creation inside it fails)
+	for _, k := range []string{"create", "create2"} {
+		drv := []Instr{}
+		accts := []Acct{}
+		for j, f := range failOps {
+			init := append(sendSet(), Instr{Op: f})
+			in := Instr{Op: k, V: endow, Code: init}
+			if k == "create2" {
+				in.Salt = grindSalt(hlib.NewRng(uint64(100+j)), contract(2+j), assemble(init))
+			}
+			drv = append(drv, callG(contract(2+j), "0", "900000"))
+			accts = append(accts, ca(2+j, rich, in, stop()))
+		}
+		drv = append(drv, last, stop())
+		cs = append(cs, mk("sends inside the init code of a "+strings.ToUpper(k)+" that reverts / hits INVALID / runs out of gas; the factory carries on", n,
+			append([]Acct{ca(1, rich, drv...)}, accts...)...))
+		n++
+	}
+	// B. the sends sit in frames that SUCCEED (one per kind, plus a creation), inside an outer frame of
+	//    each kind that fails afterwards: the outer revert has to drop what the inner frames recorded
+	relay := func(f string) []Instr {
+		body := []Instr{}
+		for _, k := range callKinds {
+			body = append(body, invoke(k, contract(3), "300000"))
+		}
+		body = append(body, Instr{Op: "create", V: endow, Code: append(sendSet(), Instr{Op: "return", N: 3})},
+			etxI(extQuai(1), "9", "21000", "0", "0"), Instr{Op: f})
+		return body
+	}
+	for _, k := range []string{"call", "callcode", "delegatecall"} {
+		for _, f := range []string{"revert", "invalid"} {
+			cs = append(cs, mk("inner frames of every kind send and succeed, the enclosing "+strings.ToUpper(k)+" frame then fails ("+f+")", n,
+				ca(1, rich, invoke(k, contract(2), "3000000"), last, stop()),
+				ca(2, rich, relay(f)...), ca(3, rich, append(sendSet(), stop())...)))
+			n++
+		}
+	}
+	for _, f := range []string{"revert", "burn"} {
+		cs = append(cs, mk("inner frames of every kind send and succeed inside init code that then fails ("+f+")", n,
+			ca(1, rich, callG(contract(2), "0", "3000000"), last, stop()),
+			ca(2, rich, Instr{Op: "create", V: endow, Code: relay(f)}, stop()), ca(3, rich, append(sendSet(), stop())...)))
+		n++
+	}
+	// C. the same through an inbound ETX, and with an ineligible destination zone
+	{
+		c := mk("inbound ETX whose target DELEGATECALLs / CALLCODEs code that sends and reverts", 0,
+			ca(1, rich, invoke("delegatecall", contract(2), "450000"), invoke("callcode", contract(2), "450000"), last, stop()),
+			ca(2, rich, append(sendSet(), revert())...))
+		c.Inbound, c.Value, c.Price, c.Gas = true, "900", "0", 3000000
+		cs = append(cs, c)
+		c = mk("sends to an ineligible zone inside DELEGATECALL / CALLCODE / CALL frames that fail", 2,
+			ca(1, rich, invoke("delegatecall", contract(2), "450000"), invoke("callcode", contract(2), "450000"), invoke("call", contract(2), "450000"), last, stop()),
+			ca(2, rich, append(sendSet(), Instr{Op: "invalid"})...))
+		c.Elig = false
+		cs = append(cs, c)
 	}
 	return cs
 }
@@ -361,7 +479,7 @@ func (g *gen) code(self int, depth int, isInit bool) []Instr {
 	var code []Instr
 	n := 1 + g.r.Intn(4)
 	for i := 0; i < n; i++ {
-		switch g.r.Pick(32, 7, 8, 6, 8, 3, 7, 9, 5, 6) {
+		switch g.r.Pick(32, 7, 8, 6, 8, 3, 7, 9, 5, 6, 11) {
 		case 0:
 			in := Instr{Op: "call", T: g.target(self), V: g.value(), G: g.gasArg()}
 			if in.T == lockupHex {
@@ -410,6 +528,35 @@ func (g *gen) code(self int, depth int, isInit bool) []Instr {
 			code = append(code, Instr{Op: "convert", T: t, V: g.value(), GL: fmt.Sprint(params.TxGas + uint64(g.r.Intn(50000)))})
 		case 9:
 			code = append(code, Instr{Op: "sstore", K: fmt.Sprint(1 + g.r.Intn(3)), X: fmt.Sprint(g.r.Intn(2))})
+		case 10:
+			// a frame of any kind around code that sends value out of the zone and then (mostly) fails,
+			// its failure ignored: through one of the auxiliary contracts k+1 (sends, fails), k+2 (sends,
+			// stops), k+3 (enters k+2 through some call kind, then fails), or as init code of a creation
+			gas := fmt.Sprint(120000 + g.r.Intn(400000))
+			if g.r.Chance(15) {
+				gas = ""
+			}
+			switch kind := g.r.Pick(24, 24, 24, 5, 14, 9); kind {
+			case 0, 1, 2, 3:
+				in := Instr{Op: callKinds[kind], T: contract(g.k + 1 + g.r.Pick(50, 15, 35)), G: gas}
+				if kind < 2 {
+					in.V = []string{"0", "0", "1", "5"}[g.r.Intn(4)]
+				}
+				code = append(code, in)
+			default:
+				if depth == 0 {
+					continue
+				}
+				init := g.auxCode(g.r.Pick(60, 0, 40))
+				if g.r.Chance(20) {
+					init[len(init)-1] = Instr{Op: "return", N: g.r.Intn(40)} // ... or succeeds
+				}
+				in := Instr{Op: "create", V: g.auxBalance(), Code: init}
+				if kind == 5 && self > 0 {
+					in.Op, in.Salt = "create2", grindSalt(g.r, contract(self), assemble(init))
+				}
+				code = append(code, in)
+			}
 		}
 	}
 	if isInit {
@@ -442,6 +589,58 @@ func (g *gen) code(self int, depth int, isInit bool) []Instr {
 		code = append(code, Instr{Op: "return", N: g.r.Intn(64)})
 	}
 	return code
+}
+
+// sends: n instructions that append to the ETX cache when they succeed (mostly affordable values)
+func (g *gen) sends(n int) []Instr {
+	var out []Instr
+	for i := 0; i < n; i++ {
+		v := fmt.Sprint(1 + g.r.Intn(1000))
+		if g.r.Chance(12) {
+			v = g.value()
+		}
+		conv := new(big.Int).Add(params.MinQuaiConversionAmount, big.NewInt(int64(g.r.Intn(1000)))).String()
+		switch g.r.Pick(58, 34, 5, 3) {
+		case 0:
+			out = append(out, etxI(extQuai(1+g.r.Intn(2)), v, fmt.Sprint(params.TxGas+uint64(g.r.Intn(30000))), fmt.Sprint(g.r.Intn(4)), fmt.Sprint(g.r.Intn(4))))
+		case 1:
+			out = append(out, convI(qiHere(1), conv, fmt.Sprint(params.TxGas+uint64(g.r.Intn(30000)))))
+		case 2:
+			out = append(out, callG(extQuai(1+g.r.Intn(2)), v, fmt.Sprint(43000+g.r.Intn(20000))))
+		default: // (a nested CALL out of the zone's Quai ledger kills the calling frame: one more way of failing)
+			out = append(out, callG(qiHere(1), conv, fmt.Sprint(43000+g.r.Intn(20000))))
+		}
+	}
+	return out
+}
+
+func (g *gen) failOp() Instr { return Instr{Op: failOps[g.r.Pick(50, 25, 25)]} }
+
+// auxCode: 0 = sends then fails, 1 = sends then stops, 2 = enters auxiliary contract k+2 (sends, stops)
+// through some call kind, maybe sends itself, then fails
+func (g *gen) auxCode(which int) []Instr {
+	switch which {
+	case 0:
+		return append(g.sends(1+g.r.Intn(3)), g.failOp())
+	case 1:
+		return append(g.sends(1+g.r.Intn(2)), stop())
+	}
+	in := Instr{Op: callKinds[g.r.Pick(34, 33, 33)], T: contract(g.k + 2), G: fmt.Sprint(100000 + g.r.Intn(150000))}
+	if in.Op != "delegatecall" {
+		in.V = []string{"0", "2"}[g.r.Intn(2)]
+	}
+	code := []Instr{in}
+	if g.r.Chance(40) {
+		code = append(code, g.sends(1)...)
+	}
+	return append(code, g.failOp())
+}
+
+func (g *gen) auxBalance() string {
+	if g.r.Chance(75) {
+		return rich
+	}
+	return g.balance()
 }
 
 func grindSalt(r *hlib.Rng, creator string, init []byte) string {
@@ -492,6 +691,9 @@ func genCase(r *hlib.Rng) *Case {
 	for i := 1; i <= g.k; i++ {
 		a := ca(i, g.balance(), g.code(i, 2, false)...)
 		c.with(a)
+	}
+	for w := 0; w < 3; w++ {
+		c.with(ca(g.k+1+w, g.auxBalance(), g.auxCode(w)...))
 	}
 	if r.Chance(30) {
 		c.with(Acct{Addr: zeroHex, Bal: fmt.Sprint(r.Intn(50))})
